@@ -57,6 +57,21 @@ func TestSweep(t *testing.T) {
 			}
 		}
 	}
+	// channel counts around 65536 (the returned count is in frames of the real channel count)
+	for i, e := range convtab.Entries {
+		if i%13 != 0 {
+			continue
+		}
+		var vals []kit.Val
+		if e.S.Kind == kit.Float {
+			vals = []kit.Val{kit.FV(0.5), kit.FV(-0.25)}
+		} else {
+			vals = []kit.Val{convtab.AmpToCode(e.S, 1), convtab.AmpToCode(e.S, -2)}
+		}
+		for _, C := range []int{65536, 65538} {
+			Oracle.One(t, env, rec, "sweep", &Case{S: e.S.Name, D: e.D.Name, C: C, Src: Win{Kr: 3, A: 0, B: 3}, Dst: Win{Kr: 2, A: 0, B: 2}, Vals: vals})
+		}
+	}
 	// same-type conversions between two windows of one parent
 	for _, e := range convtab.Entries {
 		if e.S.Name != e.D.Name {
